@@ -149,6 +149,37 @@ def detect_trace(events):
     return out
 
 
+def git_unquote(p):
+    """The path a C-style quoted diff-header path stands for (git's core.quotePath spelling)."""
+    if not (len(p) >= 2 and p[0] == '"' and p[-1] == '"'):
+        return p
+    out = bytearray()
+    b = p[1:-1].encode()
+    i = 0
+    simple = {ord("a"): 7, ord("b"): 8, ord("t"): 9, ord("n"): 10, ord("v"): 11, ord("f"): 12, ord("r"): 13}
+    while i < len(b):
+        if b[i] != 0x5c or i + 1 >= len(b):
+            out.append(b[i])
+            i += 1
+            continue
+        c = b[i + 1]
+        if c in simple:
+            out.append(simple[c])
+            i += 2
+        elif 0x30 <= c <= 0x33:
+            j = i + 1
+            v = 0
+            while j < len(b) and j < i + 4 and 0x30 <= b[j] <= 0x37:
+                v = v * 8 + (b[j] - 0x30)
+                j += 1
+            out.append(v)
+            i = j
+        else:
+            out.append(c)
+            i += 2
+    return out.decode("utf-8", "replace")
+
+
 def diff_traces(events):
     """Per file section of a run: normalised TraceDiff input {target_file: [events]}."""
     out = {}
@@ -161,7 +192,8 @@ def diff_traces(events):
         if e["ev"] in ("dl", "hunk_end", "changes"):
             sections.setdefault(e["file"], []).append(e)
     for tf, evs in sections.items():
-        path = tf[2:] if tf.startswith("b/") else tf
+        path = git_unquote(tf)
+        path = path[2:] if path.startswith("b/") else path
         tr = []
         for e in evs:
             if e["ev"] == "dl":
@@ -286,4 +318,26 @@ def system_trace(events, res, args, has_diff):
     outcome = {"ok": "ok", "error": "error", "reject": "reject"}.get(res["outcome"], res["outcome"])
     out.append(dict(D, ev="exit", status=res["exit"], outcome=outcome, list=is_list, reported=bool(res.get("report")),
                     has_diff=bool(has_diff)))
+    # every run starts with `begin`: list mode, diff on stdin, number of files whose parsing was started
+    out.insert(0, dict(D, ev="begin", n=sum(1 for e in out if e["ev"] == "parse"), list=is_list, has_diff=bool(has_diff)))
     return out
+
+
+def validate_system(traces, chunk=150):
+    """TraceSystem over many complete runs: the runs of a chunk are concatenated (each starts with its `begin` event)
+    and validated by one TLC process; the members of a rejected chunk are validated again one by one so that the
+    verdict names the run.  -> {id: (accepted, diagnosis, states, rc)}"""
+    ids = sorted(traces, key=str)
+    res = {}
+    groups = {}
+    for k in range(0, len(ids), chunk):
+        groups["chunk-%d" % k] = ids[k:k + chunk]
+    cat = {g: [e for i in members for e in traces[i]] for g, members in groups.items()}
+    for g, (ok, diag, states, rc_) in validate_many("TraceSystem", cat, timeout=600).items():
+        members = groups[g]
+        if ok:
+            for i in members:
+                res[i] = (True, None, max(1, states // max(1, len(members))), rc_)
+        else:
+            res.update(validate_many("TraceSystem", {i: traces[i] for i in members}))
+    return res
